@@ -70,6 +70,7 @@ type G struct {
 	goid    string
 	noYield int
 	role    string
+	idle    bool // parked in WaitIdle
 }
 
 func (g *G) ID() int      { return g.id }
@@ -137,35 +138,35 @@ var Epoch = time.Date(2021, 3, 4, 5, 6, 7, 0, time.UTC).UnixNano()
 
 // World is one simulated execution.
 type World struct {
-	cfg      Config
-	rng      rng
-	tape     []uint32
-	tapePos  int
-	replay   bool
-	overrun  bool
-	gs       []*G
-	cur      *G
-	now      int64
-	timers   timerHeap
-	seq      uint64
-	steps    int64
-	switches int64
-	status   Status
-	dead     bool
-	doneCh   chan struct{}
-	trace    uint64
-	sig      uint64
-	closed   map[uintptr]interface{}
-	counters map[string]int64
-	panicV   string
-	panicS   string
-	expect   []expectation
-	budget   string
-	fair     bool
+	cfg       Config
+	rng       rng
+	tape      []uint32
+	tapePos   int
+	replay    bool
+	overrun   bool
+	gs        []*G
+	cur       *G
+	now       int64
+	timers    timerHeap
+	seq       uint64
+	steps     int64
+	switches  int64
+	status    Status
+	dead      bool
+	doneCh    chan struct{}
+	trace     uint64
+	sig       uint64
+	closed    map[uintptr]interface{}
+	counters  map[string]int64
+	panicV    string
+	panicS    string
+	expect    []expectation
+	budget    string
+	fair      bool
 	pctChange map[int64]bool
-	visits   map[string]int
-	lowPrio  int
-	data     map[string]interface{}
+	visits    map[string]int
+	lowPrio   int
+	data      map[string]interface{}
 }
 
 type expectation struct {
@@ -257,17 +258,17 @@ loop:
 	}
 	W = nil
 	res := &Result{
-		Status:     w.status,
-		Steps:      w.steps,
-		Switches:   w.switches,
-		VirtualNs:  w.now,
-		TraceHash:  w.trace,
-		SwitchSig:  w.sig,
-		Goroutines: len(w.gs),
-		PanicValue: w.panicV,
-		PanicStack: w.panicS,
-		Counters:   w.counters,
-		BudgetWhy:  w.budget,
+		Status:      w.status,
+		Steps:       w.steps,
+		Switches:    w.switches,
+		VirtualNs:   w.now,
+		TraceHash:   w.trace,
+		SwitchSig:   w.sig,
+		Goroutines:  len(w.gs),
+		PanicValue:  w.panicV,
+		PanicStack:  w.panicS,
+		Counters:    w.counters,
+		BudgetWhy:   w.budget,
 		TapeOverrun: w.overrun,
 	}
 	if !w.replay {
@@ -340,6 +341,11 @@ func (w *World) finish(st Status) {
 	if w.dead {
 		return
 	}
+	if (st == StatusDeadlock || st == StatusBudget) && os.Getenv("KAPSIM_STACKS") != "" {
+		buf := make([]byte, 1<<20)
+		n := runtime.Stack(buf, true)
+		fmt.Fprintf(os.Stderr, "---- %v at step %d ----\n%s\n", st, w.steps, buf[:n])
+	}
 	w.status = st
 	w.dead = true
 	close(w.doneCh)
@@ -391,6 +397,40 @@ func (w *World) eligibleOthers(g *G) []*G {
 		}
 	}
 	return out
+}
+
+func (w *World) idleWaiter() *G {
+	for _, o := range w.gs {
+		if o.state == gParked && o.idle {
+			return o
+		}
+	}
+	return nil
+}
+
+// WaitIdle parks the caller until no other goroutine can run without the clock advancing:
+// everything already accepted has been carried as far as it can go.
+func WaitIdle() {
+	w := W
+	if w == nil {
+		return
+	}
+	if w.dead {
+		abandon()
+	}
+	g := w.cur
+	g.idle = true
+	g.state = gParked
+	g.ready = func() bool { return false }
+	g.parkOp = "waitidle"
+	w.seq++
+	g.parkSeq = w.seq
+	w.mix(uint64(g.id)<<8 | 0x8)
+	w.switchFrom(g, "waitidle")
+	g.state = gRunnable
+	g.ready = nil
+	g.idle = false
+	g.parkOp = ""
 }
 
 func (w *World) starved(g *G) bool {
@@ -487,11 +527,21 @@ func (w *World) switchFrom(g *G, op string) {
 				els = append(els, g)
 			}
 			if len(els) == 0 {
-				if w.advanceClock() {
+				// quiescent: first release a goroutine waiting for exactly that
+				if ig := w.idleWaiter(); ig != nil {
+					ig.idle = false
+					if ig == g {
+						g.state = gRunnable
+						g.ready = nil
+						return
+					}
+					els = append(els, ig)
+				} else if w.advanceClock() {
 					continue
+				} else {
+					w.finish(StatusDeadlock)
+					abandon()
 				}
-				w.finish(StatusDeadlock)
-				abandon()
 			}
 			d := w.draw(len(els), func() int { return w.chooseAmong(els) })
 			next = els[d%len(els)]
